@@ -2,10 +2,10 @@ package main
 
 import (
 	"fmt"
-	"os"
 	"go/ast"
 	"go/token"
 	"go/types"
+	"os"
 	"sort"
 	"strings"
 
@@ -240,7 +240,7 @@ func closureRound(pkgs []*packages.Package, overlay map[string][]byte) (map[stri
 						}
 						continue
 					}
-					body := string(src[off(lit.Body.Lbrace):off(lit.Body.Rbrace)+1])
+					body := string(src[off(lit.Body.Lbrace) : off(lit.Body.Rbrace)+1])
 					okSites := true
 					var siteEdits []edit
 					for _, st := range sites {
